@@ -322,4 +322,6 @@ def validate_runs(trace_spec, trace_path, wd, on_reject, max_rounds=12, run_key=
         path = trace_path + f".r{rnd}"
         with open(path, "w") as f:
             f.writelines(keep)
-    raise ToolError(f"more than {max_rounds} rejected runs in {trace_path}; stopping")
+    # enough evidence: the runs rejected so far have been reported through on_reject; the rest stays unexamined
+    log(f"note: more than {max_rounds} rejected runs in {trace_path}; the remaining runs were not examined")
+    return total, rejected
